@@ -33,8 +33,8 @@ OPEN_STATEMENTS = [
     'Model leaf times; that the generators emitted by the real step classes commute for a given Hamiltonian is an input (numerical oracle)',
     'NOT PROVED: controlled variants (identity on control 0, phase of the constant) — oracle only',
     'lsn_asym/sym_step_is_product_formula cover the linear swap network steps (real hopping part, density-density part, '
-    'number operators: total coefficients per generator kind); the imaginary (oriented) hopping part, the mirrored order of the '
-    'symmetric step, SPLIT_OPERATOR and LOW_RANK emitters are covered by the product-formula correspondence / oracle only',
+    'number operators: total coefficients per generator kind) and lsn_sym_step_mirrored proves the palindrome; the imaginary '
+    '(oriented) hopping part as an operator identity, SPLIT_OPERATOR and LOW_RANK emitters are covered by the product-formula correspondence / oracle only',
     'that the real circuits equal the product of exponentials of the Model generator lists is a 1e-8 float comparison',
 ]
 ASSUMPTIONS = [
